@@ -231,3 +231,30 @@ def _(v):
                 and U(1500 * u.m, unit=u.km) == "1.5 km" and U(2.0 * u.km, 0.25 * u.km, unit=u.m) == "2000(250) m")
     except ImportError:
         pass
+
+
+@harness("C20", "reaction_parameter_with_a_real_unit", functions=["chempy.printing.string:StrPrinter._Reaction_param_str", "chempy.printing.string:StrPrinter._print_Reaction"], kind="data")
+def _(v):
+    """'a reaction printed with its parameter shows that parameter's magnitude and unit' on quantities of the real units package, also for units that
+    simplify to a pure number but carry a scale (percent, mM/M, g/kg): the magnitude is only meaningful together with the unit it is expressed in,
+    so the unit must be there in all four formats (hand-written texts)"""
+    import warnings
+    from chempy.chemistry import Equilibrium, Reaction
+    from chempy.units import default_units as u
+    table = [(5 * u.percent, "5 %", "5 %", "%"), (3 * u.mM / u.M, "3 mM/M", "3 mM/M", "mM"), (4 * u.g / u.kg, "4 g/kg", "4 g/kg", "kg"),
+             (2.5 / u.M / u.s, "2.5 1/(s*M)", "2.5 1/(s·M)", "s"), (1.5e-3 * u.m ** 3 / u.mol / u.s, "0.0015 m**3/(s*mol)", "0.0015 m³/(s·mol)", "mol")]
+    bad = []
+    with warnings.catch_warnings():
+        warnings.simplefilter("ignore")
+        for cls, arrows in ((Equilibrium, ("=", "⇌", "&harr;", "\\rightleftharpoons")), (Reaction, ("->", "→", "&rarr;", "\\rightarrow"))):
+            for q, plain, uni, token in table:
+                r = cls({"A": 1}, {"B": 1}, q, checks=())
+                got = (r.string(with_param=True), r.unicode({}, with_param=True), r.html({}, with_param=True), r.latex({}, with_param=True))
+                if got[0] != "A %s B; %s" % (arrows[0], plain) or got[1] != "A %s B; %s" % (arrows[1], uni):
+                    bad.append((str(q), got[:2]))
+                mag = plain.split(" ")[0]
+                for g, a in zip(got[2:], arrows[2:]):
+                    head, _, tail = g.partition(a + " B")
+                    if head != "A " or mag not in tail or token not in tail.split(mag, 1)[1]:
+                        bad.append((str(q), g))
+    v.prove("magnitude_and_unit_in_all_four_formats", not bad, detail=repr(bad[:3]))
